@@ -1,6 +1,9 @@
 #!/bin/sh
 # probe_copy.sh <patch.diff> <dir> : make a scratch copy of /repo's sources in <dir> (outside /repo and /verif) with the patch applied
 set -e
+# never copy while a seeded change is applied to /repo (tools/keep_seed.py holds this lock then)
+exec 9>/tmp/pv-repo.lock
+flock 9
 rm -rf "$2"; mkdir -p "$2"
 for f in src Cargo.toml Cargo.lock tests examples benches resources; do [ -e /repo/$f ] && cp -r /repo/$f "$2"/; done
 (cd "$2" && patch -p1 -s --no-backup-if-mismatch -i "$1")
